@@ -7,6 +7,7 @@ import (
 	"context"
 	"crypto/sha256"
 	"encoding/hex"
+	"fmt"
 	"os"
 	"os/exec"
 	"path/filepath"
@@ -38,6 +39,7 @@ type SolveCfg struct {
 	TmpDir    string
 	SolverSeq []int // indexes into solvers
 	NoRelax   bool
+	NoReuse   bool // do not read the result store (every query is solved again); results are still written
 }
 
 // relaxQuery removes the quantified assumptions of a query (every "(assert ...)" line mentioning a quantifier except the
@@ -132,11 +134,19 @@ func solveOne(o *Obligation, cfg SolveCfg, w int) {
 		return // decided by the generator itself
 	}
 	h := queryHash(o.Query)
-	if cfg.CacheDir != "" {
+	if cfg.CacheDir != "" && !cfg.NoReuse {
+		// result store: the answer a solver gave earlier to the byte-identical query (key = SHA-256 of the query text).
+		// An entry is "<result> <solver>\t<seconds it took>"; the time reported for a reused answer is that original time
 		if data, err := os.ReadFile(filepath.Join(cfg.CacheDir, h)); err == nil {
-			parts := strings.SplitN(strings.TrimSpace(string(data)), " ", 2)
+			line := strings.TrimSpace(string(data))
+			t0 := 0.0
+			if i := strings.LastIndex(line, "\t"); i >= 0 {
+				fmt.Sscanf(line[i+1:], "%g", &t0)
+				line = line[:i]
+			}
+			parts := strings.SplitN(line, " ", 2)
 			if len(parts) == 2 && (parts[0] == "unsat" || parts[0] == "sat") {
-				o.Result, o.Solver, o.Time = parts[0], parts[1]+" (cached)", 0
+				o.Result, o.Solver, o.Time = parts[0], parts[1]+" (cached)", t0
 				return
 			}
 		}
@@ -155,7 +165,7 @@ func solveOne(o *Obligation, cfg SolveCfg, w int) {
 				if res == "unsat" {
 					o.Result, o.Solver, o.Time = "unsat", solvers[0].name+" (quantifier-free relaxation)", el
 					if cfg.CacheDir != "" {
-						os.WriteFile(filepath.Join(cfg.CacheDir, h), []byte("unsat "+o.Solver+"\n"), 0o644)
+						os.WriteFile(filepath.Join(cfg.CacheDir, h), []byte(fmt.Sprintf("unsat %s\t%.3f\n", o.Solver, el)), 0o644)
 					}
 					return
 				}
@@ -219,7 +229,7 @@ func solveOne(o *Obligation, cfg SolveCfg, w int) {
 			o.Result, o.Solver, o.Time, o.Output = a.res, a.name, a.el, a.out
 			cancel()
 			if cfg.CacheDir != "" {
-				os.WriteFile(filepath.Join(cfg.CacheDir, h), []byte(a.res+" "+a.name+"\n"), 0o644)
+				os.WriteFile(filepath.Join(cfg.CacheDir, h), []byte(fmt.Sprintf("%s %s\t%.3f\n", a.res, a.name, a.el)), 0o644)
 			}
 			return
 		}
